@@ -22,11 +22,12 @@ SELECTORS = ("lo", "hi", "lo1", "hi1", "mid", "rnd")
 class Schedule:
     """Decides the selector of draw number i.  Pure data: {policy, seed, p, overrides}."""
 
-    def __init__(self, policy="rnd", seed=0, p=0.3, overrides=None, clock=None, entropy="rnd"):
+    def __init__(self, policy="rnd", seed=0, p=0.3, overrides=None, clock=None, entropy="rnd", sites=None):
         self.policy = policy
         self.seed = seed
         self.p = p
         self.overrides = dict(overrides or {})
+        self.sites = dict(sites or {})   # draw site (d42 function name) or "kind:<randint|choice|...>" -> selector
         self.clock = clock          # JSON of a SimClockScript, or None (default clock)
         self.entropy = entropy      # "rnd" | "zero" | "ones"  (payload of the first uuid4)
         self._mix = None
@@ -38,21 +39,27 @@ class Schedule:
             j["clock"] = self.clock
         if self.entropy != "rnd":
             j["entropy"] = self.entropy
+        if self.sites:
+            j["sites"] = dict(sorted(self.sites.items()))
         return j
 
     @classmethod
     def from_json(cls, j):
         return cls(j.get("policy", "rnd"), j.get("seed", 0), j.get("p", 0.3),
                    {int(k): v for k, v in (j.get("overrides") or {}).items()},
-                   j.get("clock"), j.get("entropy", "rnd"))
+                   j.get("clock"), j.get("entropy", "rnd"), j.get("sites"))
 
     def reset(self):
         self._mix = _real_random.Random(derive("sched-mix", self.seed))
 
-    def selector(self, i):
+    def selector(self, i, kind=None):
         ov = self.overrides.get(i)
         if ov is not None:
             return ov
+        if self.sites:
+            ov = self.sites.get(_site(3)) or self.sites.get("kind:%s" % kind)
+            if ov is not None:
+                return ov
         pol = self.policy
         if pol in ("lo", "hi", "rnd", "mid", "lo1", "hi1"):
             return pol
@@ -275,7 +282,7 @@ class World:
         if i >= self.MAX_DRAWS:
             raise DrawCapExceeded("more than %d draws in one run" % self.MAX_DRAWS)
         self.draws = i + 1
-        return self.schedule.selector(i)
+        return self.schedule.selector(i, kind)
 
     def _log(self, kind, args, sel, outcome):
         site = _site()
@@ -311,8 +318,8 @@ class _Counter(dict):
         return 0
 
 
-def _site():
-    f = sys._getframe(2)
+def _site(depth=2):
+    f = sys._getframe(depth)
     # walk out of this file and out of d42/generation/_random.py
     for _ in range(8):
         fn = f.f_code.co_filename
